@@ -11,6 +11,8 @@ RULE = ("E1: BFS over histories of do(ok|raise)/grow(1)/shrink(1|all)/limit chan
         "on the real Team whose coordinator and workers are harness-owned queue workers (every transition runs the real code); "
         "invariants after every transition, completion oracle in every quiescent state. E2: every schedule (preemption bound) of "
         "2 submitter threads against the real LockWorker/ThreadWorker/ThreadPool code with cooperative Lock/Queue/Thread. "
+        "Two further E2 configurations make the first attempt to start a pool thread fail (the submitter sees the RuntimeError); "
+        "the same thread then submits a second task, which must be handled as usual. "
         "non-trivial = distinct canonical states in which a task was backlogged, a shrink was deferred or quit was requested")
 BOUNDS = {"quick": "E1 depth 10, <= 3 tasks, limit in {0,1,2}; E2 preemption bound 2", "thorough": "E1 depth 12, <= 4 tasks; E2 preemption bound 3"}
 ASSUMPTIONS = ["E1 serialises coordinator work exactly as an IExclusiveWorker must; which thread performs it is explored in E2",
